@@ -903,6 +903,10 @@ Print Assumptions Blocks_total_partial_open_new_blocks_step_advances.
    a scan_link_title match, at least 2 bytes) and strings.rs:line_at:bytes[end..] (split_off_front_matter starts line_at
    at 0 and then at the `next` of the line before, which is inside the string). *)
 From V Require Proofs.BlocksTotal5Only.
+(* sixth round: required HERE, not next to its theorems at the end of the file, because coqdep stops seeing `Require`
+   after the string "..peek_char_n:assert!(" + "*c > 0)" of the list below (it takes the two characters for a comment
+   opener), and the build would lose the dependency of this file on the files of the sixth round *)
+From V Require Proofs.BlocksTotal6Row Proofs.BlocksTotal6Pos Proofs.BlocksTotal6Val Proofs.BlocksTotal6ValWalk Proofs.BlocksTotal6.
 
 Theorem Blocks_total_remaining_sites_list :
   BlocksTotal5Only.rem_sites =
@@ -1034,3 +1038,102 @@ Print Assumptions Blocks_total_partial_ok_or_remaining.
    A `but L` walk has to restate a lemma for every function between the site and parse_blocks (the allowed set is part
    of the statement); Proofs/BlocksTotal5Only.v is the complete list of those functions with scripts that need no
    invariant (copy it with the new allowed set; only the functions that reach a site of L need a premise). *)
+
+(* ---- totality, sixth round (Proofs/BlocksTotal6*.v).
+   Walk 1 (Proofs/BlocksTotal6Pos.v, `but pos_sites`): NINE sites excluded, for EVERY input byte string and EVERY option
+   set.  The walk takes its invariant from the Ok-path lemmas of Proofs/BlocksPos.v (PIL: the line counter is L, every
+   node has 1 <= start line and 1 <= start column) instead of re-proving it: only the no-panic half is redone (tactic
+   `sat` derives PIL of every intermediate state from `f .. = Ok (.., st') -> PIL st -> PIL st'`).
+     mod.rs:finalize_borrowed:self.line_number - 1     evaluated only when curline_len <> 0, i.e. inside process_line,
+                                                       which adds 1 to the line counter first; curline_len = 0 in the
+                                                       prologue and in finalize_document (frame lemmas KC)
+     mod.rs:add_child:assert!(start_column > 0)        every caller passes S _ or 1, or (table.rs) a column made of the
+                                                       start column of a node of the tree and the offsets of a cell
+     table.rs:try_inserting_..:start.line + newlines - 1, try_opening_header / try_opening_row:start.column +
+       cell.start_offset - 1                           1 <= start line / column of the container
+     table.rs:try_inserting_..:content[..paragraph_offset], try_opening_header: the three subtractions of
+       header_row.paragraph_offset                     what `row` ANSWERS (Proofs/BlocksTotal6Row.v, pinned below):
+                                                       paragraph_offset <= |string|, <= start_offset and <= end_offset
+                                                       of every cell — for every byte string
+   Walk 2 (Proofs/BlocksTotal6ValWalk.v, `but val_sites`): FOUR more sites, same scheme, with the Ok-path invariant of
+   Proofs/BlocksTotal6Val.v (pinned below as Blocks_total_partial_stored_values): every HtmlBlock of the tree has block
+   type 1..7 (what the two opener scanners answer; finalize keeps it), every Paragraph has a NUL-free content and at
+   least as many line_offsets as its content has LF bytes — through every function of the block phase, for every input
+   (the lines are NUL-free and have one LF: FeedProofs.lines_clean).
+     mod.rs:parse_html_block_prefix:unreachable!()     block type 1..7
+     inlines.rs:peek_char_n (the assert c > 0)         parse_reference_inline runs on the content of a Paragraph
+     table.rs:try_inserting_..:line_offsets[n]         newlines of the preface <= LF bytes of the content <= |line_offsets|
+     strings.rs:chop_trailing_hashtags:line[n]         LOCAL (n = |line| - 1 - hashes and hashes < |line|)
+   RESULT: parse_blocks o x is Ok or a Panic at one of the 22 sites of rem_sites6. *)
+(* (the files of this round are required above, before Blocks_total_remaining_sites_list: see the note there) *)
+
+Theorem Blocks_total_remaining_sites_list6 :
+  BlocksTotal6.rem_sites6 =
+  [ "mod.rs:finalize_borrowed:assert!(ast.open)";
+    "mod.rs:add_line:assert!(ast.open)";
+    "mod.rs:add_text_to_container:self.finalize(self.current).unwrap()";
+    "mod.rs:add_child:self.finalize(parent).unwrap()";
+    "mod.rs:add_line:str::from_utf8(&line[self.offset..]).unwrap()";
+    "mod.rs:handle_alert:String::from_utf8(tmp).unwrap()";
+    "mod.rs:handle_footnote:str::from_utf8(c).unwrap()";
+    "mod.rs:finalize_borrowed:String::from_utf8(tmp).unwrap()";
+    "mod.rs:resolve_reference_link_definitions:content[seeked..]";
+    "inlines.rs:link_label:str::from_utf8(raw_label).unwrap()";
+    "mod.rs:parse_reference_inline:String::from_utf8(clean_url).unwrap()";
+    "mod.rs:parse_reference_inline:String::from_utf8(clean_title).unwrap()";
+    "table.rs:try_inserting_table_header_paragraph:String::from_utf8(paragraph_content).unwrap()";
+    "strings.rs:split_off_front_matter:slice_from";
+    "strings.rs:split_off_front_matter:slice_to";
+    "strings.rs:line_at:slice";
+    "mod.rs:finalize_borrowed:assert!(pos < content.len())";
+    "mod.rs:finalize_borrowed:content.as_bytes()[pos]";
+    "table.rs:try_opening_header:content.len() - 2";
+    "table.rs:try_opening_header:content.len() - 2 - header_row.paragraph_offset";
+    "strings.rs:remove_trailing_blank_lines:line.len() - 1";
+    "strings.rs:chop_trailing_hashtags:line.len() - 1" ].
+Proof. vm_compute. reflexivity. Qed.
+Print Assumptions Blocks_total_remaining_sites_list6.
+
+Theorem Blocks_total_partial_ok_or_remaining6 : forall o x,
+  (exists r, parse_blocks o x = Ok r) \/ (exists s, parse_blocks o x = Panic s /\ In s BlocksTotal6.rem_sites6).
+Proof. exact BlocksTotal6.parse_blocks_ok_or_rem6. Qed.
+Print Assumptions Blocks_total_partial_ok_or_remaining6.
+
+(* what table.rs `row` answers, for every byte string *)
+Theorem Blocks_total_partial_row_answers : forall s sp po cells,
+  row s sp = Ok (Some (po, cells)) ->
+  po <= List.length s /\ Forall (fun c => po <= ce_start c /\ po <= ce_end c) cells.
+Proof. exact BlocksTotal6Row.row_facts. Qed.
+Print Assumptions Blocks_total_partial_row_answers.
+
+(* stored values of the tree the block phase answers, for every input and every option set *)
+Theorem Blocks_total_partial_stored_values : forall o x r,
+  parse_blocks o x = Ok r -> BlocksPos.all_info BlocksTotal6Val.Qn (br_root r).
+Proof. exact BlocksTotal6Val.parse_blocks_val. Qed.
+Print Assumptions Blocks_total_partial_stored_values.
+
+(* ---- state after the sixth round.  PROVED for the whole parse_blocks, EVERY input byte string (valid UTF-8 or not),
+   EVERY option set: no OutOfFuel; any Panic is at one of the 22 sites of rem_sites6 (Blocks_total_remaining_sites_list6).
+   REMAINING for Blocks_total_full_statement = exactly rem_sites6:
+     open spine (3)   finalize_borrowed:assert!(ast.open), add_line:assert!(ast.open),
+                      add_text_to_container:self.finalize(self.current).unwrap(): spine_ok2 with P1 / P2 (fourth round).
+     W + kinds (1)    add_child:self.finalize(parent).unwrap(): see the comment of the fifth round (needs W and the kind of
+                      the node add_child has just created; NOT the spine).
+     UTF-8 (12)       unchanged (boundary invariant on valid UTF-8 input).
+     stored values (4 + 1)
+                      finalize_borrowed:assert!(pos < content.len()), content.as_bytes()[pos]: a fenced CodeBlock has a
+                      content with a line end once its opening line is added (window between add_child and add_line).
+                      try_opening_header:content.len() - 2 [- paragraph_offset]: the content of a Paragraph ends with LF
+                      and, when `row` answers Some (po, cells), po + 2 <= |content| (one more fact about `row`, next to
+                      Blocks_total_partial_row_answers: after a row end at least one cell byte and the final LF follow).
+                      remove_trailing_blank_lines: front matter not empty (local), indented code content not empty.
+     chop_trailing_hashtags:line.len() - 1 (1)   the ATX line contains its #; needs the cursor invariant F0 at
+                      add_text_to_container and `container is an ATX heading -> opened by this line`.
+   HOW the two walks of this round are made (cheap; reuse for the clauses above): an Ok-path invariant
+   `f .. = Ok (.., st') -> Inv st -> Inv st'` for every function (Proofs/BlocksPos.v, Proofs/BlocksTotal6Val.v: the
+   generic lemmas about all_info are shared; a new clause about val / content / line_offsets costs a few lines in
+   finalize, add_line, handle_setext_heading and the table functions), then a copy of Proofs/BlocksTotal6ValWalk.v with
+   the new list: only the functions that contain a site of the list change.  Make the state invariant an Inductive
+   (QI), not a Definition: with a Definition `apply QI_st_refmap` unifies with every goal and loops.
+   NOTE for the build: coqdep does not see any `Require` placed after Blocks_total_remaining_sites_list (the string of
+   the peek_char_n site contains the two characters of a comment opener); new files must be required before it. *)
